@@ -859,7 +859,7 @@ def parse_file(path):
                 p.next()
             pn = p.ident()
             if pn == "self":
-                params.append(("self", ("named", prefix or "Self")))
+                params.append(("self", ("named", "Self")))
             else:
                 p.expect(":")
                 mutref = p.at("&") and (p.at("mut", 1) or (p.peek(1)[0] == "life" and p.at("mut", 2)))
@@ -1049,6 +1049,8 @@ EXTERN_METHODS = {
 EXTERN_FNS = {
     # big-endian integers (modelled as in the model: DESIGN trusted base)
     "u32.from_be_bytes": ("TzVerif.Src.be_unsigned", [("bytesN", 4)], ("u32",)),
+    # native-endian u64 of an 8-byte buffer (x86-64 / aarch64: little-endian); only ever compared for equality
+    "u64.from_ne_bytes": ("TzVerif.Src.ne_u64", [("bytesN", 8)], ("u64",)),
     "i32.from_be_bytes": ("TzVerif.Src.be_signed", [("bytesN", 4)], ("i32",)),
     "i64.from_be_bytes": ("TzVerif.Src.be_signed", [("bytesN", 8)], ("i64",)),
     # the constructor of local time types (its byte loop `TzAsciiStr::new` is not in the subset): the model function
@@ -2912,6 +2914,8 @@ CONFIG = {
             "TzAsciiStr.new": {"fuel": {"1": "input.len() + 1"}},
             "LocalTimeType.new": {"struct_override": {"LocalTimeType": "LocalTimeTypeSrc"}},
             "LocalTimeType.with_ut_offset": {"struct_override": {"LocalTimeType": "LocalTimeTypeSrc"}},
+            "TzAsciiStr.equal": {},
+            "LocalTimeType.equal": {"struct_override": {"LocalTimeType": "LocalTimeTypeSrc"}},
         }),
         ("src/parse/tz_string.rs", {
             "map_err": {}, "parse_time_zone_designation": {}, "parse_hhmmss": {}, "parse_signed_hhmmss": {}, "parse_offset": {},
